@@ -26,6 +26,8 @@ HARNESSES = [
     quick=_cfgs(3, (0, 1, 2), (0, 1, 2))[::2], thorough=_cfgs(4, (0, 1, 2), (0, 1, 2))),
  _h('reshape_ctdst', 'shape_reshape of a symbolic run-time dim-3 source (kind KA in {array, static vector, list} x build) to the compile-time CONSTANT target (2,3), and the all-constant (1,3,2)->(2,3), vs the all-run-time call.' + ENUM,
     quick=_cfgs(3, (0, 1, 2)), thorough=_cfgs(4, (0, 1, 2))),
+ _h('repeat_clipped', 'view::repeat of a (3,2) hybrid array with per-element repeats (each 1..3, symbolic) given as std::array / static_vector / tuple of clipped_size_t<3> (KA) x build; data and index symbolic; index::cumsum in the same kinds.' + ENUM,
+    quick=_cfgs(3, (0, 1, 2)), thorough=_cfgs(3, (0, 1, 2))),
  _h('array_kinds', 'view::transpose on a (2,3) array held as fixed / hybrid / dynamic ndarray_t (KA) x build, data and index symbolic.' + ENUM, quick=[c for c in _cfgs(3, (0, 1, 2)) if not (c['KA'] == 2 and c['BUILD'] == 0)], thorough=[c for c in _cfgs(3, (0, 1, 2)) if not (c['KA'] == 2 and c['BUILD'] == 0)]),
  _h('array_kinds_sum', 'view::sum over a symbolic (possibly negative) axis of a (2,3) fixed / hybrid / dynamic ndarray_t (KA) x build, data and index symbolic.' + ENUM, quick=_cfgs(3, (0, 1)), thorough=_cfgs(3, (0, 1))),
  _h('constants', 'compile-time constant shapes (types, ENUMERATED: (2,3,4); (2,1,4)x(3,1)) vs the run-time functions on the same values; constant x symbolic run-time operand', quick=_cfgs(3, (0,)), thorough=_cfgs(4, (0,))),
